@@ -259,7 +259,7 @@ class World:
         raise ValueError(d)
 
 
-def gen_world_desc(rng: random.Random, nuser=None, features=True):
+def gen_world_desc(rng: random.Random, nuser=None, features=True, generics=0.1):
     """random hierarchy descriptor; retried by the caller when CPython rejects the MRO"""
     nuser = nuser if nuser is not None else rng.randint(2, 6)
     user = []
@@ -273,7 +273,7 @@ def gen_world_desc(rng: random.Random, nuser=None, features=True):
             kind = "abc"
         elif features and r < 0.2 and (len(protos_used) < NATTR or rng.random() < 0.3):
             kind = "proto"
-        elif features and r < 0.3:
+        elif features and r < 0.2 + generics:
             kind = "generic"
         u = {"kind": kind, "bases": [], "attrs": [], "virtual": []}
         if kind == "proto":
